@@ -116,13 +116,17 @@ def run_history(rng, base_port: int, plan_class: str, n_c: int, n_e: int, grace_
             return real(host, m)
         sender.send = send
 
-    def wrap_listener(lst, d):
+    polls: dict = {}
+
+    def wrap_listener(lst, d, name):
         real = lst.recv_messages
+        polls[name] = 0
 
         def recv(timeout_ms=1000, real=real):
             ms = real(timeout_ms)
             with lock:
                 delivered[d].extend(ms)
+                polls[name] += 1
             return ms
         lst.recv_messages = recv
 
@@ -154,12 +158,12 @@ def run_history(rng, base_port: int, plan_class: str, n_c: int, n_e: int, grace_
         ex.registration = ExecutorRegistration(host=hid, maddress=eaddr, daddress=daddr, workers=[Worker(worker_id=w, cpu=1, gpu=0, memory_mb=1) for w in ex.workers])
         dl = comms.Listener(daddr)
         wrap_sender(ex.sender, "e2c")
-        wrap_listener(ex.mlistener, "c2e")
-        wrap_listener(dl, "c2e")
+        wrap_listener(ex.mlistener, "c2e", "ex")
+        wrap_listener(dl, "c2e", "dl")
         ex.to_controller(ex.registration)
         bridge = bridge_mod.Bridge(caddr, 1)
         wrap_sender(bridge.sender, "c2e")
-        wrap_listener(bridge.mlistener, "e2c")
+        wrap_listener(bridge.mlistener, "e2c", "br")
         delivered["e2c"].append(ex.registration)
         # proxies on the data path of both senders
         for host, (sock, addr) in list(bridge.sender.hosts.items()):
@@ -232,11 +236,25 @@ def run_history(rng, base_port: int, plan_class: str, n_c: int, n_e: int, grace_
             c_done = raised["c2e"] is not None or not bridge.sender.inflight
             e_done = ex.terminating or not ex.sender.inflight
             if c_done and e_done:
-                time.sleep(0.3)   # let late duplicates arrive
-                quiescent = True
+                # let late duplicates arrive and let both receiving loops finish the iteration that produced the last ack
+                # (the ack leaves inside recv_messages, the harness's record of the delivery is appended just after it)
+                time.sleep(0.3)
+                p0, ts = dict(polls), time.time()
+
+                def settled():
+                    return all(polls[k] >= p0[k] + 2 for k in polls if not (k == "br" and raised["c2e"] is not None) and not (k == "ex" and ex.terminating))
+                while time.time() - ts < 5 and not settled():
+                    time.sleep(0.01)
+                quiescent = settled()
                 break
             time.sleep(0.02)
         active[0] = False
+        if ex.terminating:
+            # the executor is on its way out (it gave up, or lost its controller): its loop may not have unwound yet
+            threads[0].join(5)
+            with lock:
+                if raised["e2c"] is None:
+                    raised["e2c"] = "terminating"
         stop.set()
         inj.close(0)
         return {"sent": {k: list(v) for k, v in sent.items()}, "delivered": {k: list(v) for k, v in delivered.items()}, "raised": dict(raised), "stats": dict(stats), "quiescent": quiescent}
